@@ -67,7 +67,13 @@ the remaining 36 are equivalent mutants (13 capacity hints; 6 variants of the
 byte-length-shortcut conditions, unobservable by theorem C05; conditions whose extra case
 is unreachable or idempotent, e.g. `NonEmptyLines` re-skipping the `\n` it did not consume;
 constants added to every entry of the cost matrix; one line of the `hyphenation` feature,
-which is not compiled). No surviving mutant that violates a property went unreported.
+which is not compiled). A second family (`tools/mutgen2.py`: statement deletion, conditions
+forced to `true`/`false`, iterator/Option method swaps; 205 mutants, 3 do not compile, 178
+killed by the suite) leaves 24 survivors: 21 are reported with a concrete failing input, the
+other 3 are equivalent (the two byte-length shortcuts disabled outright — exactly the
+unobservability theorem C05 states, one of them visible to C01's correspondence only
+through the pointer identity of an empty line — and an `else if` whose condition is already
+implied). No surviving mutant that violates a property went unreported.
 
 **Negative controls.** %d behaviour-preserving refactorings (`seeded/benign-*/`; three of them
 substantial rewrites by a sub-agent: the escape-sequence skipper as an explicit state machine,
